@@ -452,7 +452,8 @@ func ClassifyV2(prefix string, p *Prepared, rc *ref.Case, rq Request, k ref.Tri,
 	case kind == "userset" && k == ref.T && !o.Allowed:
 		uo, ur := ref.UserParts(rq.User)
 		ut, _ := ref.SplitObject(uo)
-		if !V2UsersetSubjectShortcut(p.Ref, typ, rq.Relation, ut, ur) {
+		// (the reflexive question "is T:id#r in T:id#r" is answered by the same direct lookup)
+		if rq.Object+"#"+rq.Relation != rq.User && !V2UsersetSubjectShortcut(p.Ref, typ, rq.Relation, ut, ur) {
 			return ""
 		}
 		return prefix + "-v2-userset-subject-silent-divergence"
